@@ -246,26 +246,31 @@ SetToSeq(S) == LET RECURSIVE Go(_)
                                                      IN <<x>> \o Go(T \ {x})
                IN Go(S)
 (* Initialiser TEMPLATES: an initialiser whose leaves are indexes into Paths(l) instead of values; *)
-(* Fill substitutes the values of one bit pattern (a row of tab.vals).  UnpackT is Unpack's shape.  *)
+(* Fill substitutes the values of one bit pattern (a row of tab.vals); a negative index -j takes   *)
+(* the value of path j from a second row (the complemented pattern), so that overlapping fields   *)
+(* can be given unrelated values.  UnpackT is Unpack's shape.                                     *)
 IndexOf(ps, p) == CHOOSE j \in 1..Len(ps) : ps[j] = p
-RECURSIVE UnpackT(_, _, _), Fill(_, _, _)
+RECURSIVE UnpackT(_, _, _), Fill(_, _, _, _), NegT(_, _)
 UnpackT(sh, pre, ps) ==
     IF IsLeaf(sh) THEN IndexOf(ps, pre)
     ELSE IF sh.k = "union"
          THEN IF NF(sh) = 0 THEN <<>>
               ELSE LET i == Widest(sh) IN << <<i, UnpackT(Sub(sh, i), pre \o <<i>>, ps)>> >>
          ELSE [i \in 1..NF(sh) |-> <<i, UnpackT(Sub(sh, i), pre \o <<i>>, ps)>>]
-Fill(sh, t, row) ==
-    IF IsLeaf(sh) THEN row[t]
-    ELSE [k \in 1..Len(t) |-> <<t[k][1], Fill(Sub(sh, t[k][1]), t[k][2], row)>>]
+Fill(sh, t, row, crow) ==
+    IF IsLeaf(sh) THEN (IF t > 0 THEN row[t] ELSE crow[0 - t])
+    ELSE [k \in 1..Len(t) |-> <<t[k][1], Fill(Sub(sh, t[k][1]), t[k][2], row, crow)>>]
+NegT(sh, t) == IF IsLeaf(sh) THEN 0 - t ELSE [k \in 1..Len(t) |-> <<t[k][1], NegT(Sub(sh, t[k][1]), t[k][2])>>]
 RemoveAt(s, i) == [j \in 1..(Len(s) - 1) |-> IF j < i THEN s[j] ELSE s[j + 1]]
 Reverse(s) == [j \in 1..Len(s) |-> s[Len(s) + 1 - j]]
 (* further initialisers of the top layout: each union member alone, each field left out (its bits *)
-(* stay 0), fields given in reverse order (matters when fields overlap), nothing                  *)
+(* stay 0), fields given in reverse order (matters when fields overlap), every second field taken *)
+(* from the complemented pattern (overlapping fields then disagree), nothing                      *)
 ExtraTemplates(l, ps) ==
     LET full == [i \in 1..NF(l) |-> <<i, UnpackT(Sub(l, i), <<i>>, ps)>>]
+        mixed == [i \in 1..NF(l) |-> IF i % 2 = 0 THEN <<i, NegT(Sub(l, i), full[i][2])>> ELSE full[i]]
     IN IF l.k = "union" THEN [i \in 1..NF(l) |-> <<full[i]>>] \o << <<>> >>
-       ELSE [i \in 1..NF(l) |-> RemoveAt(full, i)] \o <<Reverse(full), <<>>>>
+       ELSE [i \in 1..NF(l) |-> RemoveAt(full, i)] \o <<Reverse(full), mixed, Reverse(mixed), <<>>>>
 PathDesc(l, p) ==
     LET nd == NodeAt(l, p)
         par == NodeAt(l, SubSeq(p, 1, Len(p) - 1))
@@ -283,7 +288,7 @@ LayoutTable(l) ==
         vals == [r \in 1..n |-> [j \in 1..Len(ps) |-> FieldOf(r - 1, l, ps[j])]]
         ets == ExtraTemplates(l, ps)
         ex == {r \in PatternRaws(l) \cup {q \in RawsOf(l) : q % 13 = 3} :
-                  \A y \in 1..Len(ets) : InitOK(l, Fill(l, ets[y], vals[r + 1]))}
+                  \A y \in 1..Len(ets) : InitOK(l, Fill(l, ets[y], vals[r + 1], vals[n - r]))}
         xs == SetToSeq(ex)
     IN [size   |-> Size(l),
         paths  |-> [j \in 1..Len(ps) |-> PathDesc(l, ps[j])],
@@ -297,7 +302,8 @@ LayoutTable(l) ==
         \* further initialisers (templates) and the constants they build from selected patterns
         xtmpl  |-> ets,
         xraws  |-> xs,
-        xconst |-> [x \in 1..Len(xs) |-> [y \in 1..Len(ets) |-> Pack(l, Fill(l, ets[y], vals[xs[x] + 1]))]],
+        \* (row of the pattern xraws[x], second row of its complement)
+        xconst |-> [x \in 1..Len(xs) |-> [y \in 1..Len(ets) |-> Pack(l, Fill(l, ets[y], vals[xs[x] + 1], vals[n - xs[x]]))]],
         \* assignments: asg[j][x][y] = the pattern after assigning asgvals[j][y] to path j of asgraws[x]
         asgraws |-> rs,
         asgvals |-> [j \in 1..Len(ps) |-> SetToSeq(AssignValues(NodeAt(l, ps[j])))],
@@ -399,7 +405,7 @@ PackUnpack == IsLayoutState =>
         disj == Disjoint(L) IN
     /\ tight => cm = 0..(Size(L) - 1)
     /\ \A raw \in PatternRaws(L) : /\ tab.packed[raw + 1] = Pack(L, Unpack(L, raw))
-                                     /\ Fill(L, tab.tmpl, tab.vals[raw + 1]) = Unpack(L, raw)
+                                     /\ Fill(L, tab.tmpl, tab.vals[raw + 1], tab.vals[raw + 1]) = Unpack(L, raw)
     /\ tight \/ disj => \A raw \in RawsOf(L) : tab.packed[raw + 1] = FromBitSet(BitSet(raw, Size(L)) \cap cm)
     /\ \A raw \in RawsOf(L) : tab.packed[raw + 1] \in RawsOf(L)
 
